@@ -76,6 +76,19 @@ def make_jobs(chk):
                 n += 1
                 jobs.append(SessionJob("h%d:%s:walk%d" % (n, name, k), script, stack, fl, sv, succ=succ,
                                        cmds=["step"] * k + ["rewind"] * 3 + ["step"] * 2 + ["rewind"] * (k - 1) + ["step"] * 2 + ["run"], cmp=CMP, hist=True))
+    # every stack-manipulating opcode undone on stacks with repeated items (a permutation can leave depth and top item as they were while
+    # the items below have moved), once and twice in a row
+    stacks = [[b"\x05", b"\x07"] * 3, [b"\x05", b"\x05", b"\x07", b"\x05", b"\x09", b"\x05"], [b"\x01", b"\x02", b"\x03", b"\x04", b"\x05", b"\x06"], [b"\x07"] * 6]
+    perm = ["DUP", "DROP", "NIP", "OVER", "ROT", "SWAP", "TUCK", "2DROP", "2DUP", "3DUP", "2OVER", "2ROT", "2SWAP", "IFDUP", "DEPTH", "SIZE", "TOALTSTACK", "1ADD", "NOP"]
+    for i, opn in enumerate(perm + ["PICK", "ROLL"]):
+        for k, st in enumerate(stacks):
+            for idx in ((None,) if opn not in ("PICK", "ROLL") else (0, 1, 2, 4)):
+                body = (bytes([O[str(idx)]]) if idx is not None else b"") + bytes([O[opn]])
+                script = body + body + bytes([O["NOP"]])
+                nst = len(checklib.script_ops(script))
+                for pat in (["step"] * (nst // 2) + ["rewind"] * (nst // 2) + ["steps"], ["step"] * (nst - 1) + ["rewind"] + ["step", "rewind"] * 2 + ["rewind"] * (nst - 2) + ["steps"]):
+                    n += 1
+                    jobs.append(SessionJob("hp%d:%s:%d" % (n, opn, k), script, st, [], ("BASE", "WITNESS_V0", "TAPSCRIPT")[(i + k) % 3], cmds=pat, cmp=CMP, hist=True))
     # whole tapscript / witness spends with real signatures and executed OP_CODESEPARATORs, set up by the tool: go back over the separator
     # and the signature check and forward again; the digest the code computes is compared each time
     import gen_spend
